@@ -29,6 +29,7 @@ import (
 	"sort"
 	"strings"
 	"sync"
+	"sync/atomic"
 	"time"
 
 	"github.com/nspcc-dev/neo-go/pkg/crypto/hash"
@@ -407,8 +408,8 @@ type tcase struct {
 	NowMs   int64  `json:"now_ms,omitempty"`
 	Sender  string `json:"sender,omitempty"`
 	// mutation parts
-	Mut  *vkit.Mut `json:"mut,omitempty"`
-	Menu string    `json:"menu,omitempty"`
+	Mut   *vkit.Mut  `json:"mut,omitempty"`
+	Menu  string     `json:"menu,omitempty"`
 	Deleg *delegCase `json:"deleg,omitempty"`
 }
 
@@ -1159,7 +1160,21 @@ func main() {
 	for _, n := range nowOffsets {
 		x.w.byNow[n] = newWorld(n)
 	}
-	// NNS name team.ok contains bob
+	// informational only (not judged): which timestamp the node hands to GetEpochBlockByTime when it evaluates the N3
+	// witness of a V2 token "at iat" (the netmap contract expects Unix milliseconds)
+	var lookups, lookupsMatchingIatMs atomic.Int64
+	for _, w := range x.w.byNow {
+		w.BlockByTime = func(t uint32) (uint32, error) {
+			lookups.Add(1)
+			for d := int64(-10); d <= 10; d++ {
+				if uint64(t) == uint64(baseUnix+d)*1000 {
+					lookupsMatchingIatMs.Add(1)
+				}
+			}
+			return 0, nil
+		}
+	}
+	defer func() {}()
 	if r.Replay != "" {
 		var tc tcase
 		r.LoadReplay(&tc)
@@ -1195,6 +1210,8 @@ func main() {
 	r.Set("outcome_classes", len(x.classes))
 	r.Set("outcomes", x.classes)
 	r.Set("violation_classes", x.viols)
+	r.Set("observation_v2_n3_height_lookup", map[string]any{"lookups": lookups.Load(), "lookups_whose_argument_is_iat_in_unix_ms": lookupsMatchingIatMs.Load(),
+		"note": "internal/crypto/n3.go verifyN3ScriptsAtTime passes uint32(t.UnixMilli()); the value wraps for present-day times, so the historic height is not the one of iat (not judged by this check: the stand-in chain's CheckSig does not depend on the height)"})
 	x.mu.Unlock()
 	r.Rule("A/C/E: full products stated in the file header (no sampling); D: full delegation product; B/D/E mutation: every single-bit flip of every populated leaf, " +
 		"every unset field set, every populated field and sub-message cleared, every bit of the wire form, and a substitution menu, per scheme. " +
